@@ -185,3 +185,19 @@ def update(arr, f):
     """Overwrite the whole storage of `arr` pointwise, in place."""
     new = pointwise(arr.shape, f)
     arr[...] = new
+
+
+def allclose(a, b):
+    return bool(np.allclose(a, b))
+
+
+def loadtxt(name):
+    return np.loadtxt(name)
+
+
+def koyama_w(k, n, p):
+    """The Koyama per-separation kernel w_n(k): evaluated by the library's own (trusted, opaque) helper."""
+    from pyPRISM.omega.DiscreteKoyama import DiscreteKoyama
+    o = DiscreteKoyama.__new__(DiscreteKoyama)
+    o.l, o.cos1, o.cos2 = p
+    return float(o.koyama_kernel_fourier(k=np.array([float(k)]), n=int(n))[0])
